@@ -825,6 +825,40 @@ func init() {
 
 func init() {
 	eng.Register(&eng.Scenario{
+		Name: "csync-deadline", Props: []string{"C02", "C01"}, MustFinish: true, ObsNames: stdObs,
+		Doc:   "Mutex and RWMutex: a holder behind a gate, waiters whose context expires (deadline context, not a cancel) while they are parked or on their way in; they must return context.Canceled and leave no trace",
+		Quick: eng.Bounds{PB: 2}, Thorough: eng.Bounds{PB: 3},
+		Body: func() {
+			bg := context.Background()
+			if vsched.Choose(2) == 0 {
+				var m csync.Mutex
+				ctx := newExpCtx(bg)
+				g1 := &vsched.Gate{}
+				phases(gates(g1))
+				rel, _ := m.Lock(bg)
+				acquired(true)
+				T("H", func() { g1.Wait(); releasing(true); rel() })
+				T("W1", func() { useMutex(&m, ctx, true) })
+				T("W2", func() { useMutex(&m, bg, false) })
+				T("E", func() { ctx.expire() })
+				finalProbeMutex(&m)
+				return
+			}
+			var m csync.RWMutex
+			ctx := newExpCtx(bg)
+			g1 := &vsched.Gate{}
+			phases(gates(g1))
+			hw := vsched.Choose(2) == 0
+			rel, _ := m.Lock(bg, hw)
+			acquired(hw)
+			T("H", func() { g1.Wait(); releasing(hw); rel() })
+			T("WC", func() { useRW(&m, ctx, true, true) })
+			T("RC", func() { useRW(&m, ctx, false, false) })
+			T("E", func() { ctx.expire() })
+			finalProbeRW(&m)
+		},
+	})
+	eng.Register(&eng.Scenario{
 		Name: "csync-locker-misuse", Props: []string{"C01", "C02"}, MustFinish: true, ObsNames: stdObs,
 		Doc:   "Mutex.Locker / RWMutex.Locker / RWMutex.RLocker (choice): one thread does Lock; Unlock; Unlock again (the documented panic is recovered); Lock; Unlock on one Locker value while another thread uses the lock directly: the refused Unlock changes nothing - the second Lock is granted, nobody is left parked and the lock ends up free",
 		Quick: eng.Bounds{PB: 2}, Thorough: eng.Bounds{PB: 3},
